@@ -13,7 +13,7 @@ import (
 )
 
 func init() {
-	props["C02"] = &propInfo{Level: "proof", Explanation: "Obligation system for the read cone (every function reachable inside the module from the public read API: spec.Parse*/Open*/Decode*, all methods of types.Value/List/Message, format.MessageTable/ListTable, spec.MessageList/ValueList, and the read side of the checked-in generated packages proto/pmpx and proto/prpc; Clone*/String excluded): (a) every panic-capable SSA instruction - slice, index, load through unsafe pointer arithmetic, make, non-constant division, unchecked type assertion, explicit panic - is proved safe for every input; (b) every Decode*/Parse*/Open* satisfies err == nil => 0 <= n <= len(input) (signature convention) plus the explicit contracts (table decoders: data size + table size <= n; decodeXData: len(result) == size <= len(b)); (c) the type invariant int(table.data) <= len(bytes) of types.List/Message is proved at every construction and assumed at every use; (d) byte-slice/string results are no longer than the input. Discharged by a modular verifier: linear-integer facts from dominating branch conditions, callee postconditions (activated by err == nil on the path), case splitting over non-loop phis, Houdini loop invariants, Fourier-Motzkin entailment with integer tightening. R13.1 (varint count >= 1) is part of the same claim. Not covered: struct decoders emitted by the generator for arbitrary schemas (their postcondition DecodeStruct: dataSize <= n <= len(b) is proved), user callbacks of the typed lists, 32-bit targets.",
+	props["C02"] = &propInfo{Level: "other", Explanation: "Obligation system for the read cone (every function reachable inside the module from the public read API: spec.Parse*/Open*/Decode*, all methods of types.Value/List/Message, format.MessageTable/ListTable, spec.MessageList/ValueList, and the read side of the checked-in generated packages proto/pmpx and proto/prpc; Clone*/String excluded): (a) every panic-capable SSA instruction - slice, index, load through unsafe pointer arithmetic, make, non-constant division, unchecked type assertion, explicit panic - is proved safe for every input; (b) every Decode*/Parse*/Open* satisfies err == nil => 0 <= n <= len(input) (signature convention) plus the explicit contracts (table decoders: data size + table size <= n; decodeXData: len(result) == size <= len(b)); (c) the type invariant int(table.data) <= len(bytes) of types.List/Message is proved at every construction and assumed at every use; (d) byte-slice/string results are no longer than the input. Discharged by a modular verifier: linear-integer facts from dominating branch conditions, callee postconditions (activated by err == nil on the path), case splitting over non-loop phis, Houdini loop invariants, Fourier-Motzkin entailment with integer tightening. R13.1 (varint count >= 1) is part of the same claim. Not covered: struct decoders emitted by the generator for arbitrary schemas (their postcondition DecodeStruct: dataSize <= n <= len(b) is proved), user callbacks of the typed lists, 32-bit targets.",
 		Trusted: []string{"go/ssa faithfully represents the compiled program", "lin.go Fourier-Motzkin entailment", "64-bit int; int/int64 arithmetic on sizes does not overflow (operands are lengths < 2^62, 32-bit wire quantities and small constants)", "dependency axioms printed in evidence: compactint.Reverse* n <= len(b), -1 <= n <= 9; binary.BigEndian.UintN needs N/8 bytes", "explicit contracts table in bounds2.go (each is verified against the function body, not assumed)"}}
 
 	register(&Rule{ID: "R02.1", Props: []string{"C02", "C13", "C16"}, Floor: 150,
